@@ -47,6 +47,7 @@ type Gen struct {
 	dynBusy      map[*ssa.Parameter]bool
 	implCache    map[string][]*ssa.Function
 	debug        bool
+	partCollector *[]argPart
 	findingObls  map[string]string // obligation name -> when-expression of the recorded finding
 	loadTime     time.Duration
 	contractFiles []string
